@@ -82,6 +82,10 @@ def ref_decode(data):
         if iw not in FMT:
             raise RefDecodeError("index word size %d" % iw)
         (common,) = struct.unpack_from("<" + FMT[iw], data, off); off += iw
+        if n and dims == 0:
+            raise RefDecodeError("entries with zero coordinates (arity must be >= 1)")
+        if n * iw * dims > len(data):
+            raise RefDecodeError("truncated: index larger than the file")
         coords = []
         for _ in range(n):
             coords.append(struct.unpack_from("<%d%s" % (dims, FMT[iw]), data, off))
